@@ -558,3 +558,96 @@ def check_head_rules(text, H, model_exe):
                 dis.append({"layer": "L4-head-rules", "text": text, "step": step, "what": bad, "model_clause": str(wc)[:300]})
                 break
     return {"head_rules": nrules, "head_formula_steps": len(keys)}, dis
+
+
+# --------------------------------------------------------------------------- life cycle of Next placeholders
+
+def check_next_life(text, H, model_exe):
+    """
+    Runs telingo with `Next.do_translate` wrapped: for every call the state of the step data before and after, the backend
+    statements of the call, the arguments of `ctx.add_todo`, the literal the argument has at the target step.  Compared with
+    the model's `nextTranslate` (command `nextstep`): new state, kind of action, the step the formula is queued under, the
+    end-of-trace value of the placeholder, the target of a direct translation / resolution.
+    """
+    import telingo.theory.body as bd
+    rec = {"pairs": {}, "atoms": {}, "vals": {}, "pairs_at": {}}
+    calls = []
+    tstack = []
+    base_todo = None
+    orig = bd.Next.do_translate
+    def state(data):
+        return "fresh" if data.literal is None else ("done" if data.done else "pending")
+    def wrapped(self, ctx, step, data):
+        nonlocal base_todo
+        before = state(data)
+        blog = rec.setdefault("backend", [])
+        n0 = len(blog)
+        neq = len(rec.setdefault("clause_calls", []))
+        todos = []
+        tstack.append((self, todos))
+        if len(tstack) == 1:
+            # one recorder for the whole nest of calls: an `add_todo` is booked to the innermost running `do_translate`
+            base_todo = ctx.add_todo
+            ctx.add_todo = lambda f, st: (tstack[-1][1].append((f._rep if f is tstack[-1][0] else "other", st)), base_todo(f, st))[1]
+        try:
+            r = orig(self, ctx, step, data)
+        finally:
+            tstack.pop()
+            if not tstack:
+                ctx.add_todo = base_todo
+        arg = self._Next__arg
+        n = self._Next__n
+        calls.append({"rep": self._rep, "n": n, "weak": self._Next__weak, "step": step, "horizon": ctx.horizon, "before": before,
+                      "after": state(data), "literal": data.literal, "statements": list(blog[n0:]),
+                      "eqs": [c for c in rec["clause_calls"][neq:] if c[0] == "eq"], "todos": todos,
+                      "arg_literal_at_target": rec["pairs"].get((arg._rep, step + n))})
+        return r
+    bd.Next.do_translate = wrapped
+    try:
+        with instrumented(rec):
+            try:
+                tl.run_telingo(text, H)
+            except BaseException as e:  # noqa
+                if isinstance(e, KeyboardInterrupt):
+                    raise
+                if tl.classify_exc(e) in ("Timeout", "RuntimeError", "ClingoError"):
+                    return {"next_calls": 0}, []
+                raise
+    finally:
+        bd.Next.do_translate = orig
+    outs = model_exe.batch([tl.sexp(("nextstep", c["n"], 1 if c["weak"] else 0, c["step"], c["horizon"], c["before"])) for c in calls])
+    dis = []
+    hist = {}
+    for c, out in zip(calls, outs):
+        st1, act = out.split(" ", 1)
+        act = tl.parse_sexp(act)
+        hist[act[0]] = hist.get(act[0], 0) + 1
+        ext = [st for st in c["statements"] if st[0] == "external" and st[1] == c["literal"]]   # (nested calls write their own)
+        own_todo = [st for rep, st in c["todos"] if rep == c["rep"]]
+        bad = None
+        if st1 != c["after"]:
+            bad = "state after the call: model {} / code {}".format(st1, c["after"])
+        elif act[0] == "direct":
+            if own_todo or c["literal"] != c["arg_literal_at_target"]:
+                bad = "direct translation: the literal must be the argument's literal at step {} (no external, no todo)".format(act[1])
+        elif act[0] == "placeholder":
+            want = "TruthValue.True_" if act[1] == "1" else "TruthValue.False_"
+            if len(ext) != 1 or ext[0][1] != c["literal"] or ext[0][2] not in (want, want.rstrip("_"), want.replace("TruthValue.", "TruthValue._").rstrip("_")):
+                bad = "placeholder: one external on the new literal with value {} expected, got {}".format(want, ext)
+            elif own_todo != [int(act[2])]:
+                bad = "placeholder: queued under step(s) {} instead of {}".format(own_todo, act[2])
+        elif act[0] == "resolve":
+            eq_ok = any(set(map(abs, (e[1], e[2]))) == set(map(abs, (c["literal"], c["arg_literal_at_target"]))) for e in c["eqs"]) \
+                if c["arg_literal_at_target"] is not None else False
+            if not eq_ok or len(ext) != 1 or "Free" not in ext[0][2] or own_todo:
+                bad = "resolution: make_equal with the argument's literal at step {} and the external set free expected".format(act[1])
+        elif act[0] == "requeue":
+            if ext or own_todo != [int(act[1])]:
+                bad = "still pending: queued under step(s) {} instead of {}".format(own_todo, act[1])
+        else:
+            if ext or own_todo:
+                bad = "finished pair touched again"
+        if bad:
+            dis.append({"layer": "L4-next-life", "text": text, "formula": c["rep"], "step": c["step"], "horizon": c["horizon"], "what": bad})
+            break
+    return {"next_calls": len(calls), "actions": hist}, dis
